@@ -23,7 +23,7 @@ pub static META: PropertyMeta = PropertyMeta {
 
 pub static PROP: Prop = Prop {
     meta: &META,
-    plan: |t| Plan { nshards: 16, budget_s: t.pick(55.0, 900.0), mem_gib: 6 },
+    plan: |t| Plan { nshards: 16, budget_s: t.pick(55.0, 540.0), mem_gib: 6 },
     shard,
     replay,
     extra: crate::no_extra,
@@ -32,39 +32,64 @@ pub static PROP: Prop = Prop {
 
 pub const RENUMBER_SIG: &str = "roundtrip-renumbers-value-names";
 
-/// Signature of a parse failure: the shape of the text the parser stopped at.
-fn parse_failure_sig(detail: &str) -> String {
-    // "... found '<text the parser stopped at>'": the first two words of that text name the
-    // construct the printer emits and the parser does not accept
-    let found = detail.rsplit("found '").next().unwrap_or(detail);
-    let words: Vec<String> = found.split(|c: char| c.is_whitespace() || c == '(' || c == ',').filter(|w| !w.is_empty()).take(2).map(line_shape).collect();
-    format!("ir-parse-failure:{}", words.join(" "))
+/// An event detail is `<class>\u{1}<human readable detail>`.
+fn split_detail(d: &str) -> (&str, &str) {
+    d.split_once('\u{1}').unwrap_or((d, d))
 }
 
 fn classify(log: &HookLog, profile: Profile, res: &mut ShardResult, replay: &Value, kinds: &mut std::collections::BTreeSet<String>) {
     kinds.extend(log.instr_kinds.iter().cloned());
     let mut renumbered = 0u64;
+    // every class is reported once per shard process (with the first witness); further
+    // occurrences are only counted
+    static REPORTED: std::sync::Mutex<std::collections::BTreeSet<String>> = std::sync::Mutex::new(std::collections::BTreeSet::new());
+    let mut reported = REPORTED.lock().unwrap();
     for ev in &log.rt {
         res.count("stages_roundtripped");
+        let (class, human) = split_detail(&ev.detail);
         match ev.kind.as_str() {
             "ok" => res.count("stages_identical_text"),
             "renumbered" => renumbered += 1,
             "parse-failure" | "parse-failure-second" => {
-                res.violation(parse_failure_sig(&ev.detail), format!("[{} after {}] printed IR is rejected by the IR parser: {}", profile.name(), ev.stage, ev.detail.chars().take(200).collect::<String>()), replay.clone());
+                let sig = format!("ir-parse-failure:{class}");
+                res.count("stages_not_parsable");
+                // one report per class and module
+                res.count(&format!("class.{sig}"));
+                if reported.insert(sig.clone()) {
+                    res.violation(sig, format!("[{} after {}] printed IR is rejected by the IR parser: {}", profile.name(), ev.stage, human.chars().take(200).collect::<String>()), replay.clone());
+                }
             }
-            "text-differs" => {
-                res.violation(format!("roundtrip-text-differs:{}", line_shape(&ev.detail)), format!("[{} after {}] print(parse(print(ir))) differs from print(ir) beyond renumbering: {}", profile.name(), ev.stage, ev.detail.chars().take(300).collect::<String>()), replay.clone());
-            }
-            "second-roundtrip-differs" => {
-                res.violation(format!("second-roundtrip-differs:{}", line_shape(&ev.detail)), format!("[{} after {}] the re-parsed module does not print to a fix point: {}", profile.name(), ev.stage, ev.detail.chars().take(300).collect::<String>()), replay.clone());
+            "text-differs" | "second-roundtrip-differs" => {
+                res.count("stages_text_differs");
+                for c in class.split('|') {
+                    let sig = format!("{}:{c}", if ev.kind == "text-differs" { "roundtrip-text-differs" } else { "second-roundtrip-differs" });
+                    res.count(&format!("class.{sig}"));
+                    if reported.insert(sig.clone()) {
+                        res.violation(sig, format!("[{} after {}] print(parse(print(ir))) differs from print(ir) beyond renumbering; first differing line: {}", profile.name(), ev.stage, human.chars().take(300).collect::<String>()), replay.clone());
+                    }
+                }
             }
             _ => {}
         }
     }
     if renumbered > 0 {
         res.add("stages_renumbered_only", renumbered);
-        // one aggregated report per (program, profile)
-        res.violation(RENUMBER_SIG, format!("print -> parse -> print renames SSA values / metadata indices ({renumbered} stages of this module); the texts are equal after renaming in order of first occurrence"), json!({"note": "aggregated; see any stage of any module"}));
+        // one aggregated report per shard
+        if reported.insert(RENUMBER_SIG.to_string()) {
+            res.violation(RENUMBER_SIG, format!("print -> parse -> print renames SSA values / metadata indices ({renumbered} stages of this module); the texts are equal after renaming in order of first occurrence"), json!({"note": "aggregated; see any stage of any module"}));
+        }
+    }
+}
+
+/// Class of the error with which the re-parsed IR is rejected by the rest of the pipeline.
+fn not_compilable_class(am: &mut Amortised, src: &str, profile: Profile) -> String {
+    let dir = am.write_unique(src);
+    let cfg = HookCfg { roundtrip_each: false, substitute_final: true, ..Default::default() };
+    let (d, _) = with_hook(cfg, false, || catch(AssertUnwindSafe(|| am.diagnose_dir(&dir, profile))));
+    let _ = std::fs::remove_dir_all(&dir);
+    match d {
+        Ok(Ok((errs, _))) => errs.first().map(|e| bucket(&format!("{e}").chars().take(70).collect::<String>())).unwrap_or_else(|| "no diagnostic".into()),
+        _ => "diagnostics unavailable".into(),
     }
 }
 
@@ -89,7 +114,8 @@ fn run_one(am: &mut Amortised, case: &Case, profile: Profile, res: &mut ShardRes
             let _ = std::fs::remove_dir_all(am.last_dir());
             // the normal build succeeded: the re-parsed IR is not accepted (unless the parser already failed above)
             if !log.rt.iter().any(|e| e.kind.starts_with("parse-failure")) {
-                res.violation(format!("reparsed-ir-not-compilable:{:016x}", hash64(case.src.as_bytes())), format!("[{}] the program compiles normally but not from parse(print(final ir))", profile.name()), replay);
+                let class = not_compilable_class(am, &case.src, profile);
+                res.violation(format!("reparsed-ir-not-compilable:{class}"), format!("[{}] the program compiles normally but not from parse(print(final ir)): {class}", profile.name()), replay);
             }
             am.remove(&normal);
             return;
@@ -156,7 +182,7 @@ fn ir_test_files(res: &mut ShardResult) {
                 }
                 Ok(Err(e)) => {
                     if e.starts_with("printed text rejected") {
-                        res.violation(parse_failure_sig(&e), format!("{rel}: {e}"), json!({"ir_file": rel}));
+                        res.violation(format!("ir-parse-failure:irfile:{rel}"), format!("{rel}: {e}"), json!({"ir_file": rel}));
                     } else {
                         res.count("ir_test_files_not_parsable_as_given");
                     }
@@ -219,7 +245,7 @@ fn shard(ctx: &ShardCtx) -> ShardResult {
                     }
                     Ok(Err(_)) => {
                         if !log.rt.iter().any(|e| e.kind.starts_with("parse-failure")) {
-                            res.violation(format!("reparsed-ir-not-compilable:e2e:{name}"), format!("e2e program {name} ({}) compiles normally but not from parse(print(final ir))", profile.name()), replay);
+                            res.violation("reparsed-ir-not-compilable:e2e-program".to_string(), format!("e2e program {name} ({}) compiles normally but not from parse(print(final ir))", profile.name()), replay);
                         }
                     }
                     Err((loc, msg)) => res.violation(format!("roundtrip-panic:{}", panic_signature(&loc, &msg)), format!("e2e program {name}: panic at {loc}: {}", msg.chars().take(160).collect::<String>()), replay),
